@@ -58,7 +58,18 @@ class Ctx:
         self.assumptions = []  # z3 bools: requires, prelude posts, definitions
         self.universals = []  # (rank, fn(idx...)->V bool, name)
         self.index_pool = {}  # rank -> list of tuples of V ints
-        self._index_seen = set()
+        self._index_seen = {}
+        self._pool_depth = {}
+        self._pool_version = 0
+        self._inst_depth = None
+        self._inst_done = set()
+        self._inst_facts = []
+        self._explicit = {}
+        self.small_hints = []
+        self._leaf_seen = {}
+        self._leaf_access = {}
+        self._probe = None
+        self._patterns = {}
         self.obligations = []
         self.counters = {}
         self.events = []  # ("warn", category_name, message) ...
@@ -102,38 +113,135 @@ class Ctx:
     def add_universal(self, rank, fn, name=""):
         self.universals.append((rank, fn, name))
 
-    def touch_index(self, idx):
-        """Register an index tuple as an instantiation candidate for universals."""
-        rank = len(idx)
-        key = (rank,) + tuple(_key(i) for i in idx)
-        if key in self._index_seen:
-            return
-        self._index_seen.add(key)
-        self.index_pool.setdefault(rank, []).append(tuple(idx))
+    MAX_INST_DEPTH = 2
 
-    def instantiate_universals(self, rounds=2):
-        """Instantiate lazily-kept universal facts at every registered index tuple."""
+    # ---- instantiation of universal facts: E-matching by hand ------------------------------
+    # * explicit entries: goal Skolem indices, existential witnesses (touch_index)
+    # * leaf accesses: every application of an input / havoc array (uninterpreted function) to
+    #   an index tuple is logged (leaf_access); a universal is *probed* once with dummy indices
+    #   to learn its patterns  leaf(.., d_k, ..)  and is then instantiated at every logged access
+    #   of that leaf that binds all its dummies, and at every explicit entry of its rank.
+    # * entries carry a generation depth (0 = occurs in program/goal; d+1 = first produced while
+    #   instantiating at a depth-d entry); only depth <= MAX_INST_DEPTH is used.
+
+    def _cur_depth(self):
+        return 0 if self._inst_depth is None else self._inst_depth + 1
+
+    def touch_index(self, idx, depth=None):
+        """Register an explicit instantiation candidate (goal Skolem / witness index)."""
+        rank = len(idx)
+        if depth is None:
+            depth = self._cur_depth()
+        key = (rank,) + tuple(_key(i) for i in idx)
+        old = self._index_seen.get(key)
+        if old is not None and old <= depth:
+            return
+        self._index_seen[key] = depth
+        if old is None:
+            self.index_pool.setdefault(rank, []).append(tuple(idx))
+            self._explicit.setdefault(rank, []).append(tuple(idx))
+        self._pool_depth[key] = depth
+        self._pool_version += 1
+
+    def leaf_touch(self, leaf_id, idx):
+        """Called by leaf arrays (uninterpreted functions) on every element access."""
+        if self._probe is not None:
+            self._probe.append((leaf_id, tuple(idx)))
+            return
+        depth = self._cur_depth()
+        rank = len(idx)
+        key = (leaf_id, rank) + tuple(_key(i) for i in idx)
+        old = self._leaf_seen.get(key)
+        if old is not None and old <= depth:
+            return
+        self._leaf_seen[key] = depth
+        if old is None:
+            self._leaf_access.setdefault(leaf_id, []).append(tuple(idx))
+            pk = (rank,) + key[2:]
+            if pk not in self._index_seen:
+                self._index_seen[pk] = depth
+                self._pool_depth[pk] = depth
+                self.index_pool.setdefault(rank, []).append(tuple(idx))
+        self._pool_version += 1
+
+    def _probe_universal(self, rank, fn):
+        dummies = tuple(SymNum(z3.Int("?d%d" % k), "int") for k in range(rank))
+        self._probe = []
+        self.in_spec += 1
+        try:
+            try:
+                fn(*dummies)
+            except Exception:
+                pass
+            rec = self._probe
+        finally:
+            self._probe = None
+            self.in_spec -= 1
+        pats = []
+        seen = set()
+        for leaf_id, idx in rec:
+            comp = []
+            for i in idx:
+                k = None
+                if isinstance(i, SymNum):
+                    for dk, d in enumerate(dummies):
+                        if i.t.eq(d.t):
+                            k = dk
+                comp.append(k)
+            bound = {k for k in comp if k is not None}
+            if len(bound) == rank:
+                sig = (leaf_id, tuple(comp))
+                if sig not in seen:
+                    seen.add(sig)
+                    pats.append(sig)
+        return pats
+
+    def _candidates(self, ui, rank, pats):
         out = []
-        done = set()
-        for _ in range(rounds):
-            before = len(self._index_seen)
+        for idx in self._explicit.get(rank, []):
+            key = (rank,) + tuple(_key(i) for i in idx)
+            out.append((idx, self._pool_depth.get(key, 0)))
+        for leaf_id, comp in pats:
+            for acc in self._leaf_access.get(leaf_id, []):
+                if len(acc) != len(comp):
+                    continue
+                key = (leaf_id, len(acc)) + tuple(_key(i) for i in acc)
+                d = self._leaf_seen.get(key, 0)
+                bind = [None] * rank
+                for c, a in zip(comp, acc):
+                    if c is not None:
+                        bind[c] = a
+                out.append((tuple(bind), d))
+        return out
+
+    def instantiate_universals(self):
+        """Instantiate lazily-kept universal facts (cached along the path)."""
+        while True:
+            version = (self._pool_version, len(self.universals))
             for ui, (rank, fn, name) in enumerate(self.universals):
-                for idx in list(self.index_pool.get(rank, [])):
-                    key = (ui,) + tuple(_key(i) for i in idx)
-                    if key in done:
+                if ui not in self._patterns:
+                    self._patterns[ui] = self._probe_universal(rank, fn)
+                for idx, d in self._candidates(ui, rank, self._patterns[ui]):
+                    if d > self.MAX_INST_DEPTH:
                         continue
-                    done.add(key)
+                    key = (ui,) + tuple(_key(i) for i in idx)
+                    if key in self._inst_done:
+                        continue
+                    self._inst_done.add(key)
                     self.in_spec += 1
+                    prev = self._inst_depth
+                    self._inst_depth = d
                     try:
                         f = fn(*idx)
                     finally:
+                        self._inst_depth = prev
                         self.in_spec -= 1
                     f = to_z3_bool(f)
                     if not z3.is_true(f):
-                        out.append(f)
-            if len(self._index_seen) == before:
+                        self._inst_facts.append(f)
+            if version == (self._pool_version, len(self.universals)):
                 break
-        return out
+        return list(self._inst_facts)
 
     def facts(self):
         inst = self.instantiate_universals()
@@ -141,23 +249,38 @@ class Ctx:
 
     # -- solver
     def check(self, extra, timeout_ms=None):
-        """Return ('sat'|'unsat'|'unknown', model|None)."""
-        s = z3.Solver()
-        s.set("timeout", int(timeout_ms or self.timeout_ms))
-        for f in self.facts():
-            s.add(f)
-        for f in extra:
-            s.add(f)
+        """Return ('sat'|'unsat'|'unknown', model|None).
+
+        Portfolio: (1) z3 with non-linear reasoning switched off (monomials are opaque: an
+        abstraction, so `unsat` is sound; anything else is inconclusive), short timeout;
+        (2) z3 default with the full timeout, whose sat/unsat answers are final."""
+        fs = self.facts() + list(extra)
+        tmo = int(timeout_ms or self.timeout_ms)
         t0 = time.time()
-        r = s.check()
-        dt = time.time() - t0
-        self.solver_seconds += dt
-        self.solver_calls += 1
-        if r == z3.sat:
-            return "sat", s.model()
-        if r == z3.unsat:
-            return "unsat", None
-        return "unknown", None
+        try:
+            s = z3.Solver()
+            s.set("timeout", min(tmo, 4000))
+            s.set("arith.nl", False)
+            for f in fs:
+                s.add(f)
+            r = s.check()
+            if r == z3.unsat:
+                self.last_backend = "z3(linear abstraction)"
+                return "unsat", None
+            s = z3.Solver()
+            s.set("timeout", tmo)
+            for f in fs:
+                s.add(f)
+            r = s.check()
+            self.last_backend = "z3"
+            if r == z3.sat:
+                return "sat", s.model()
+            if r == z3.unsat:
+                return "unsat", None
+            return "unknown", None
+        finally:
+            self.solver_seconds += time.time() - t0
+            self.solver_calls += 1
 
     def feasible(self, cond):
         r, _ = self.check([cond], timeout_ms=min(self.timeout_ms, 10000))
@@ -208,8 +331,16 @@ class Ctx:
         dt = time.time() - t0
         txt = _short(g)
         if r == "unsat":
-            ob = Obligation(name, "discharged", dt, kind=kind, formula_txt=txt)
+            ob = Obligation(name, "discharged", dt, kind=kind, formula_txt=txt, backend=getattr(self, "last_backend", "z3"))
         elif r == "sat":
+            # prefer a small counter-model (array sizes <= 3, then <= 6) so that it can be replayed
+            for bound in (3, 6):
+                if not self.small_hints:
+                    break
+                r2, m2 = self.check(hyps + [z3.Not(g)] + [h.t <= bound for h in self.small_hints], timeout_ms=5000)
+                if r2 == "sat":
+                    model = m2
+                    break
             ob = Obligation(name, "refuted", dt, detail=_model_txt(model), model=model, kind=kind, formula_txt=txt)
         else:
             r2 = self._second_opinion(hyps + [z3.Not(g)])
